@@ -8,7 +8,9 @@
 EXTENDS Naturals, Sequences, FiniteSets, TLC, Json
 CONSTANT Thorough
 ModClasses == {"healthy", "healthy3072", "small", "bits64", "bits65", "oddlen", "prime", "square", "even", "pow2", "three",
-               "fermat", "highlow", "upperdiff", "pattern", "permuted", "cf", "lhw", "pm1", "pm1both", "unseeded"}
+               "fermat", "highlow", "upperdiff", "pattern", "permuted", "cf", "lhw", "pm1", "pm1both", "unseeded",
+               \* a square minus a perfect power that is not a square; close primes whose hex form starts with the digit e
+               "sqminuscube", "sqminusfifth", "sqminustwicesq", "fermat_e"}
 CheckParams == {<<"CheckFermat", "0">>, <<"CheckFermat", "1">>, <<"CheckFermat", "100000">>,
                 <<"CheckHighAndLowBitsEqual", "default">>, <<"CheckContinuedFractions", "1">>, <<"CheckContinuedFractions", "65536">>,
                 <<"CheckContinuedFractions", "default">>, <<"CheckBitPatterns", "default">>, <<"CheckBitPatterns", "one">>,
